@@ -69,6 +69,19 @@ def r18_1(ctx: Ctx):
         it = _core_iter(it) if it is not None else None
         if isinstance(it, ast.Call) and isinstance(it.func, ast.Attribute) and isinstance(it.func.value, ast.Name) and it.func.value.id == f.self_name():
             return [ctx.ob("R18.1", f, L["stmt"], status=INCONCLUSIVE, detail=f"the demes to step are chosen by `{norm(it)[:60]}`, which this rule does not follow", construct="opaque-source")]
+    # the demes to step come from a listing accessor of the tree that already tests the flag (`running_demes`): the skip
+    # condition lives in the listing's filter
+    from .common import deme_listing
+
+    for n in step_nodes:
+        L = cfg.loop_of(n)
+        it = L["stmt"].iter if L is not None and isinstance(L["stmt"], ast.For) else None
+        it = _core_iter(it) if it is not None else None
+        if isinstance(it, ast.Attribute) and isinstance(it.value, ast.Name) and it.value.id == f.self_name():
+            dl = deme_listing(ctx, "DemeTree", it.attr)
+            hib = [x for x in dl["filters"] if "_hibernating" in x]
+            if hib:
+                return [ctx.ob("R18.1", f, L["stmt"], status=INCONCLUSIVE, detail=f"the demes to step come from `{norm(it)}`, whose filter `{hib[0][:80]}` already tests the hibernation flag: the skip condition is not in the loop this rule follows", construct="listing-tests-flag")]
     from .common import opaque_deme_calls
 
     oc = opaque_deme_calls(ctx, f, f.node, "_hibernating")
@@ -110,6 +123,12 @@ def r18_1(ctx: Ctx):
             return s
         if lab is False and isinstance(n.ast, ast.Attribute) and n.ast.attr in ("is_active", "_active"):
             return "OUT"  # the loop itself filters out inactive demes: not one of the iterations this rule is about
+        from .common import consult_verdict
+
+        if consult_verdict(ctx, f, n, "gsc", lab) is True:
+            # the global stop condition holds: SKIPPING a deme from here on is C05 / C06's business, not hibernation's
+            # (stepping a sleeping deme still is)
+            return (s[0], s[1], True)
         opt, flag, stepped = s
         e = n.ast
         is_opt = _mentions_option(e) or (isinstance(e, ast.Name) and e.id in opt_defs)
@@ -501,6 +520,31 @@ def r18_6(ctx: Ctx):
     """R18.6 the flag is read only by the stepping loop and the flag round: sleeping demes stay candidates for sprouting (which is what wakes them)."""
     obs = []
     allowed = {ctx.prog.own_method("DemeTree", "run_metaepoch").qualname, ctx.prog.own_method("DemeTree", "run_sprout").qualname}
+    # who decides which demes are OFFERED as sprout parents: the candidate generators, and every accessor / property of the tree
+    # and of the demes that they read (transitively through `self.<accessor>`). A filter that looks at the flag only removes
+    # candidates - the parent then "took no sprout" and stays asleep, which is what the property says - so filters are not
+    # part of this set.
+    gen_base = ctx.prog.cls("SproutCandidatesGenerator")
+    offering = set()
+    read_attrs = set()
+    for ci in ctx.prog.classes.values():
+        if ci is gen_base or ctx.prog.is_subclass(ci, gen_base):
+            for m in ctx.prog.functions_in(ci):
+                offering.add(m.qualname)
+                read_attrs |= {x.attr for x in body_walk(m.node) if isinstance(x, ast.Attribute) and isinstance(x.ctx, ast.Load)}
+    tree_ci, deme_ci = ctx.prog.cls("DemeTree"), ctx.prog.cls("AbstractDeme")
+    grew = True
+    while grew:
+        grew = False
+        for ci in [tree_ci] + [c for c in ctx.prog.classes.values() if c is deme_ci or ctx.prog.is_subclass(c, deme_ci)]:
+            for m in ci.methods.values():
+                if m.name in read_attrs and m.qualname not in offering and m.name not in ("run_metaepoch", "run_sprout", "run", "run_step"):
+                    offering.add(m.qualname)
+                    sn_ = m.self_name()
+                    more = {x.attr for x in body_walk(m.node) if isinstance(x, ast.Attribute) and isinstance(x.ctx, ast.Load) and isinstance(x.value, ast.Name) and x.value.id == sn_}
+                    if more - read_attrs:
+                        read_attrs |= more
+                    grew = True
     n = 0
     for f in ctx.prog.all_functions():
         if f.name == "<module>":
@@ -511,11 +555,11 @@ def r18_6(ctx: Ctx):
                 ok = f.qualname in allowed
                 # a read matters where it can keep a sleeping deme from being offered as a sprout parent (the only thing that
                 # wakes it): the sprouting machinery and the accessors it iterates; reporting / counting code may look at the flag
-                in_sprout_path = f.module.name.startswith("pyhms.sprout") or (f.cls is not None and f.cls.name == "DemeTree" and f.name in ("active_demes", "active_non_leaves", "all_demes", "levels", "leaves", "root", "_do_sprout")) or (f.cls is not None and f.name in ("is_active", "current_population", "best_current_individual"))
+                in_sprout_path = f.qualname in offering
                 if not ok and not in_sprout_path:
-                    obs.append(ctx.ob("R18.6", f, x, detail=f"{f.short} looks at the flag outside the stepping / sprouting path (reporting or accounting only)"))
+                    obs.append(ctx.ob("R18.6", f, x, detail=f"{f.short} looks at the flag, but does not decide which demes are offered as sprout parents (a filter, a report, an accessor the candidate generators do not read)"))
                     continue
-                obs.append(ctx.ob("R18.6", f, x, status=OK if ok else VIOLATION, detail="flag read by the tree's stepping / flag round" if ok else f"{f.short} reads `_hibernating`: a sleeping deme is treated differently outside the stepping loop (e.g. no longer offered as a sprout parent, so nothing can wake it and the run can stall)"))
+                obs.append(ctx.ob("R18.6", f, x, status=OK if ok else VIOLATION, detail="flag read by the tree's stepping / flag round" if ok else f"{f.short} reads `_hibernating` and the candidate generators go through it: a sleeping deme is no longer offered as a sprout parent, so no round can take a sprout from it - nothing wakes it, and with every non-leaf asleep metaepochs pass without a single evaluation"))
             if isinstance(x, ast.Call) and norm(x.func) == "getattr" and len(x.args) >= 2 and isinstance(x.args[1], ast.Constant) and x.args[1].value == "_hibernating":
                 obs.append(ctx.ob("R18.6", f, x, status=VIOLATION, detail=f"{f.short} reads the hibernation flag through getattr"))
     if n == 0:
